@@ -137,7 +137,7 @@ def run_shard(item, stats):
     elif w == "tiny":
         geos = [cachehist.TINY_GEOMETRIES[g] for g in item.get("geos", range(8))]
         core.run_cases((dict(c, kind="history") for c in cachehist.tiny_cases(item["len"], item["part"], item["parts"], True, geos)),
-                       check, stats, km)
+                       check, stats, km, distinct=True)
         stats.exhaustive_parts.append(f"all 13^{item['len']} operation sequences of length {item['len']} on {len(geos)} tiny geometries")
     else:
         core.hyp_search(program_case(), check, stats, item["n"], item["seed"], km)
